@@ -4,7 +4,7 @@
     ConfigIrrelevant, Terminates over every class of sources x CLI configuration.
 (T) sources of every class (accepted; rejected at the lexical, syntax, import, scope, type and
     evaluation phase: hand-written representatives, and class-directed mutations of accepted
-    repository programs) are run through the real oal-cli under 8 configurations (options vs
+    repository programs) are run through the real oal-cli under 12 configurations (options vs
     config file, with/without base, target absent/present with sentinel content), through
     oal_wasm::compile and through one cycle of the real oal-lsp.  The class is hidden from the
     trace: TLC infers it (FrontendsTrace.tla) - the observations of a source are accepted iff one
@@ -100,7 +100,7 @@ def canon_hashes(yaml_text):
 def obs_record(src, o):
     r = {"predicted": src.get("predicted", ""), "cli": [], "wasm": "none", "lsp": "none"}
     for c in o["cli"]:
-        r["cli"].append({"base": c["base"], "config": c["config"], "existed": c["existed"],
+        r["cli"].append({"base": c["base"], "config": frontends.mode_of(c["config"]), "existed": c["existed"], "decoy_changed": bool(c.get("decoy_changed")),
                          "exit": c["exit"] if c["exit"] is not None else -1, "changed": bool(c["changed"]), "located": c["located"]})
     w = o.get("wasm")
     if w is not None and w.get("outcome") == "ok":
@@ -120,6 +120,8 @@ def diagnose(rec):
     if len(exits) > 1:
         return "C13|cli-exit-depends-on-configuration|%s" % p
     fails = exits[0] == 1
+    if any(c.get("decoy_changed") for c in rec["cli"]):
+        return "C13|configuration-file-target-written-although-overridden-by-option|%s" % p
     if fails and any(c["changed"] for c in rec["cli"]):
         return "C13|target-touched-on-failure|%s" % p
     if not fails and not all(c["changed"] for c in rec["cli"]):
@@ -140,6 +142,10 @@ def run(tier):
     rng = random.Random(common.seed())
     common.build_harness()
     common.build_bins()
+    rp = run_tlc("Frontends", "Frontends_pinned_config.cfg", workers=4, timeout=600)
+    chk.notes["model_selftest"] = "Frontends_pinned_config.cfg (configuration file before options): TLC %s" % ("finds the violation itself" if not rp.ok else "finds nothing - the model does not exercise the precedence")
+    if rp.ok:
+        raise common.ToolError("Frontends_pinned_config.cfg should violate ExitIffWritten/DecoyUntouched")
     r = run_tlc("Frontends", "Frontends.cfg", workers=4, timeout=600)
     chk.add_tlc(r)
     if not r.ok:
@@ -159,7 +165,7 @@ def run(tier):
         if l.get("outcome") == "ok":
             for cls, mt in directed(rng, t, l["tokens"]):
                 sources.append({"files": {"main.oal": mt}, "main": "main.oal", "predicted": cls})
-    configs = [(b, cfg, ex) for b in (False, True) for cfg in (False, True) for ex in (False, True)]
+    configs = [(b, cfg, ex) for b in (False, True) for cfg in (False, True, "both") for ex in (False, True)]
     obs = frontends.run_all(sources, cli_configs=configs, jobs=8, base_text=BASE)
     recs = [obs_record(s, o) for s, o in zip(sources, obs)]
     path = os.path.join(workdir(), "frontends_obs.ndjson")
@@ -200,7 +206,7 @@ def run(tier):
     chk.notes["sources_per_class"] = per_class
     chk.notes["documents_compared"] = ndoc
     chk.cov["rule"] = ("sources: %d hand-written representatives of the 7 classes (single- and multi-module) + accepted repository programs and six "
-                       "class-directed mutants of each; every source x 8 CLI configurations + playground + one language-server cycle; all sources are "
+                       "class-directed mutants of each; every source x 12 CLI configurations (options / configuration file / both with decoys in the file)  + playground + one language-server cycle; all sources are "
                        "distinct and non-trivial (each exercises a complete front-end run)" % len(HAND))
     chk.sample({"source": sources[1]["files"], "predicted": sources[1]["predicted"], "observations": recs[1]})
     chk.sample({"source": sources[16]["files"], "predicted": sources[16]["predicted"], "observations": recs[16]})
